@@ -73,7 +73,9 @@ BaseSeqOf(i) ==
 RECURSIVE Flatten(_)
 Flatten(i) == IF i > NE THEN <<>>
               ELSE (IF EntryModel[i] = "" THEN <<>> ELSE BaseSeqOf(i)) \o Flatten(i + 1)
-BaseSeq == Table(Flatten(1))
+BaseSeqDef == Table(Flatten(1))
+BaseSeq == TLCGet(40)            \* memo register, see ConvertCore
+ASSUME TLCSet(40, BaseSeqDef)
 NBase == Len(BaseSeq)
 \* a scenario: index into BaseSeq, use_underscore, model_version
 Scenarios == {[b |-> b, us |-> u, mv |-> m] : b \in 1..NBase, u \in Underscores, m \in ModelVersions}
